@@ -162,17 +162,9 @@ def observeP : List PReq → List Answer → List (Event PKey)
 def observeS (ps : List PReq) (as : List Answer) : List (Event Key) := (observeP ps as).map (rekey (·.spec))
 
 /-- The counter keys tell groups apart exactly as the allocation table does (on the events of this history).
-    Its complement is the class of finding F09e (identity wiring: group values that differ only in surrounding
-    white space share one counter). -/
+    Since fix F09e this holds for every run (theorem `counters_follow_allocation_groups`); before, under the
+    identity wiring, group values differing only in surrounding white space shared one counter. -/
 def groupFaithful (h : List (Event PKey)) : Bool :=
   h.all fun a => h.all fun b => (a.key.code == b.key.code) == (a.key.spec == b.key.spec)
-
-/-- Classifier used by the judge for the group `k` (spec key) on whose history `holds capExact` is false:
-    some event of the group shares its counter key with an event of ANOTHER group (not `groupFaithful`) → F09e;
-    else unexplained. -/
-def findingP (h : List (Event PKey)) (k : Key) : Option String :=
-  let hk := h.filter (fun e => e.key.spec == k)
-  if hk.any (fun a => h.any (fun b => a.key.code == b.key.code && !(b.key.spec == k))) then some "F09e"
-  else none
 
 end LunarVerif.C09
